@@ -5,6 +5,7 @@ import (
 	"net"
 	"net/netip"
 	"strings"
+	"time"
 
 	"github.com/pion/ice/v4"
 	"github.com/pion/stun/v3"
@@ -117,6 +118,26 @@ func runC06(c *core.Ctx) {
 	if c.Failed() {
 		return
 	}
+	if !k.restart && k.disc > 0 && k.failed > 0 && c.T.Bias(1, 3, "silence-to-failed") {
+		// the peer falls silent (total loss both ways) until both agents have gone through Disconnected to
+		// Failed: the Failed state must leave nothing behind (invariants: pairs, candidates, selection,
+		// transactions)
+		c.Fault("total-silence")
+		total := k.disc + k.failed + 2*k.checkInterval + 2*k.keepalive + time.Second
+		for el := time.Duration(0); el < total && !c.Failed(); el += k.checkInterval {
+			for _, dg := range d.W.InFlight() {
+				d.W.Drop(dg)
+			}
+			d.S.Advance(k.checkInterval)
+			o.invariants()
+		}
+		for _, ag := range []*rig.AgentH{d.A, d.B} {
+			if ag.LastState() == ice.ConnectionStateFailed {
+				c.Probe("failed-after-connected")
+			}
+		}
+		return
+	}
 	if k.restart {
 		// Restart must leave no residue: checked right after each Restart call
 		for _, ag := range []*rig.AgentH{d.A, d.B} {
@@ -131,6 +152,10 @@ func runC06(c *core.Ctx) {
 			s := rig.TakeSnap(ag)
 			if len(s.Pairs) != 0 || len(s.Locals) != 0 || len(s.Remotes) != 0 || s.Selected != "" {
 				c.Failf("C06/restart-residue", "%s after Restart: %d pairs, %d local, %d remote candidates, selected=%q", ag.Name, len(s.Pairs), len(s.Locals), len(s.Remotes), s.Selected)
+				return
+			}
+			if n, err := ice.VerifPendingTransactions(ag.A); err == nil && n != 0 {
+				c.Failf("C06/restart-residue/transactions", "%s after Restart still holds %d outstanding Binding transaction(s) of the previous generation", ag.Name, n)
 				return
 			}
 			c.Probe("restart-clean")
@@ -203,6 +228,9 @@ func (o *c06Oracle) invariants() {
 		if s.LastState == ice.ConnectionStateFailed {
 			if len(s.Pairs) != 0 || len(s.Locals) != 0 || s.Selected != "" {
 				c.Failf("C06/failed-residue", "%s in Failed still has %d pairs, %d local candidates, selected=%q", ag.Name, len(s.Pairs), len(s.Locals), s.Selected)
+			}
+			if n, err := ice.VerifPendingTransactions(ag.A); err == nil && n != 0 {
+				c.Failf("C06/failed-residue/transactions", "%s in Failed still holds %d outstanding Binding transaction(s)", ag.Name, n)
 			}
 			c.Probe("failed-clean")
 		}
